@@ -708,6 +708,13 @@ where
                 &mut notify_change,
             )?;
 
+            // The resumption records of a rolled-back fabric must not meet
+            // the next fabric that gets the same index
+            #[cfg(feature = "case-resumption")]
+            if let Some(fab_idx) = removed_fabric {
+                state.resumption.remove_for_fabric(fab_idx);
+            }
+
             // Close the commissioning window on timeout
             state
                 .pase
